@@ -402,3 +402,13 @@ Theorem C17_kernel_CalculatePSPDirectoryCheckSum : forall fuel raw, bytes_ok raw
   go_CalculatePSPDirectoryCheckSum fuel raw = Amd.dir_checksum raw.
 Proof. exact go_CalculatePSPDirectoryCheckSum_tie. Qed.
 Print Assumptions C17_kernel_CalculatePSPDirectoryCheckSum.
+
+(* ---- format constants ----
+   The models take their format constants from Gen/Consts.v, which is regenerated from /repo's
+   source on every run; Spec/ConstPins.v (committed, written by bin/mkpins) pins every one of them
+   to the value the specifications give it.  A constant that drifts in the Go source breaks this
+   theorem instead of being silently followed by model and generator. *)
+From Fiano Require Spec.ConstPins.
+Theorem C17_format_constants_pinned : Spec.ConstPins.pinned_c17.
+Proof. exact Spec.ConstPins.pins_c17. Qed.
+Print Assumptions C17_format_constants_pinned.
